@@ -65,6 +65,8 @@ package libmem
 //@   ensures[C06] forall k string :: k != req.id ==> (k in a.zones[zone].users) == old(zone in a.zones && k in a.zones[zone].users) && (old(zone in a.zones) ==> a.zones[zone].users[k] == old(a.zones[zone].users[k]))
 //@   ensures[C06] a.requests == old(a.requests) && a.journal == old(a.journal) && dom(a.requests) == old(dom(a.requests)) && vals(a.requests) == old(vals(a.requests))
 //@   ensures[C06] old(rwf(a)) && req.id in a.requests && a.requests[req.id] == req ==> rwf(a)
+//@   ensures[C06,C07] old(jupd(a)) ==> jupd(a)
+//@   ensures[C06,C07] old(jchg(a)) ==> jchg(a)
 
 //@ func (*Allocator).zoneRemove ints=bv64
 //@   requires awf(a)
@@ -102,6 +104,9 @@ package libmem
 //@   ensures[C06] a.requests == old(a.requests) && a.journal == old(a.journal) && req.id in a.users && a.users[req.id] == zone
 //@   ensures[C06] dom(a.requests) == old(dom(a.requests)) && vals(a.requests) == old(vals(a.requests))
 //@   ensures[C06] forall id string :: id != req.id ==> (id in a.users) == old(id in a.users) && a.users[id] == old(a.users[id])
+//@   ensures[C06,C07] old(jupd(a)) ==> jupd(a)
+//@   ensures[C06,C07] old(jchg(a)) ==> jchg(a)
+//@   ensures[C06,C07] old(jassigned(a)) ==> jassigned(a)
 
 // ---- journal life cycle ---------------------------------------------------------------------------------
 // The assignment view a transaction started from is recoverable from the journal:
@@ -153,7 +158,11 @@ package libmem
 // ---- transactions -----------------------------------------------------------------------------------------
 
 //@ pure jassigned(a *Allocator) bool = a.journal != nil ==> forall id string :: id in a.journal.reverts ==> id in a.users
-//@ pure txn(a *Allocator) bool = awf(a) && rwf(a) && a.journal != nil && jassigned(a)
+// journal.updates records the current assignment of every request touched by the transaction
+//@ pure jupd(a *Allocator) bool = a.journal != nil ==> forall id string :: id in a.journal.updates ==> id in a.users && a.journal.updates[id] == a.users[id]
+// a request whose assignment differs from the transaction's starting view has a journal entry
+//@ pure jchg(a *Allocator) bool = a.journal != nil ==> forall id string :: id in a.users && !(id in a.journal.updates) ==> origd(a, id) && origv(a, id) == a.users[id]
+//@ pure txn(a *Allocator) bool = awf(a) && rwf(a) && a.journal != nil && jassigned(a) && jupd(a) && jchg(a)
 //@ pure nocustom(a *Allocator) bool = a.custom.ExpandZone == nil && a.custom.HandleOvercommit == nil
 
 // SortRequests (map iteration, filtering closure, slices.SortFunc) is assumed: it returns requests stored in the map.
@@ -249,6 +258,7 @@ package libmem
 //@   ensures[C06] retErr == nil ==> a.journal != nil && jassigned(a) && req.id in a.users && a.users[req.id] == req.zone && !old(req.id in a.requests) && !old(req.id in a.users) &&
 //@                                 dom(a.requests) == upd(old(dom(a.requests)), req.id, true) && vals(a.requests) == upd(old(vals(a.requests)), req.id, req)
 //@   ensures[C06] retErr == nil ==> forall id string :: origd(a, id) == old(id in a.users) && origv(a, id) == old(a.users[id])
+//@   ensures[C06,C07] retErr == nil ==> jupd(a) && jchg(a) && req.id in a.journal.updates
 //@   ensures[C07] retErr == nil ==> forall id string :: old(id in a.users) ==> id in a.users && (a.users[id] & old(a.users[id])) == old(a.users[id])
 //@   ensures[C07] retErr == nil ==> (req.zone & a.masks.nodes.normal) != 0
 
@@ -302,6 +312,7 @@ package libmem
 //@   ensures[C06] awf(a) && rwf(a) && a.journal == nil && a.version == old(a.version) && assigned(a)
 //@   ensures[C06] dom(a.users) == old(dom(a.users)) && vals(a.users) == old(vals(a.users)) && dom(a.requests) == old(dom(a.requests)) && vals(a.requests) == old(vals(a.requests))
 //@   ensures[C06] result1 == nil ==> result0 != nil && result0.a == a && result0.req == req && result0.version == a.version
+//@   ensures[C06] result1 == nil ==> offerok(result0)
 
 //@ func (*Allocator).validateRealloc ints=bv64 tags=C06
 //@   requires a != nil && req != nil && a.masks != nil
@@ -323,3 +334,37 @@ package libmem
 //@   ensures[C06] result2 != nil ==> dom(a.users) == old(dom(a.users)) && vals(a.users) == old(vals(a.users))
 //@   ensures[C06] dom(a.requests) == old(dom(a.requests)) && vals(a.requests) == old(vals(a.requests))
 //@   ensures[C07] result2 == nil ==> forall k string :: old(k in a.users) ==> k in a.users && (a.users[k] & old(a.users[k])) == old(a.users[k])
+
+// ---- offers ----------------------------------------------------------------------------------------------------
+// What GetOffer guarantees about a fresh offer, relative to the state it was taken in. The version check in
+// Commit ties the two states together: every successful mutator bumps a.version (proved above), so an offer
+// whose version still matches is committed in a state whose view equals the one it was computed for.
+
+//@ pure offerok(o *Offer) bool = o != nil && o.a != nil && o.req != nil && o.updates != nil && o.updates != o.a.users &&
+//@    o.req.id in o.updates && !(o.req.id in o.a.requests) && !(o.req.id in o.a.users) &&
+//@    (forall id string :: id in o.updates ==> o.updates[id] != 0)
+
+//@ func (*Allocator).newOffer ints=bv64
+//@   requires a != nil
+//@   ensures[C06] fresh(result) && result.a == a && result.req == req && result.updates == updates && result.version == a.version
+
+//@ func (*Offer).Commit ints=bv64
+//@   requires o != nil && o.a != nil && idle(o.a) && (o.version == o.a.version ==> offerok(o))
+//@   let a = o.a
+//@   ensures[C06] awf(a) && rwf(a) && a.journal == nil
+//@   ensures[C06] o.version != old(a.version) ==> result2 != nil && a.version == old(a.version) &&
+//@        dom(a.users) == old(dom(a.users)) && vals(a.users) == old(vals(a.users)) && dom(a.requests) == old(dom(a.requests)) && vals(a.requests) == old(vals(a.requests))
+//@   ensures[C06] o.version == old(a.version) ==> result2 == nil && a.version != old(a.version)
+//@   ensures[C06,C04] o.version == old(a.version) ==> result0 == o.updates[o.req.id] && a.users[o.req.id] == result0 && o.req.id in a.users
+//@   ensures[C06,C07] o.version == old(a.version) ==> forall id string :: id != o.req.id ==> (id in result1) == (id in o.updates) && result1[id] == o.updates[id]
+//@   ensures[C06] o.version == old(a.version) ==> forall id string :: id != o.req.id && id in o.updates && old(id in a.requests) ==> id in a.users && a.users[id] == o.updates[id]
+//@   ensures[C06] o.version == old(a.version) ==> forall id string :: !(id in o.updates) ==> (id in a.users) == old(id in a.users) && a.users[id] == old(a.users[id])
+//@ loop 0 in (*Offer).Commit at "range o.updates"
+//@   modifies a.users[*], a.zones[*], a.requests[*], maps map[string]*Request, comp Request.zone, comp Zone.nodes, comp Zone.types, comp Zone.capacity, comp Zone.users
+//@   invariant awf(a) && rwf(a) && a.journal == nil && nocustom(a) && a.masks == old(a.masks) && o.a == a && offerok_static(o)
+//@   invariant forall id string :: seen(id) ==> id in o.updates
+//@   invariant forall id string :: seen(id) && (id == o.req.id || old(id in a.requests)) ==> id in a.users && a.users[id] == o.updates[id]
+//@   invariant forall id string :: !seen(id) || !(id == o.req.id || old(id in a.requests)) ==> (id in a.users) == old(id in a.users) && a.users[id] == old(a.users[id])
+//@   invariant forall id string :: (id in a.requests) == (old(id in a.requests) || (id == o.req.id && seen(id)))
+//@   invariant forall id string :: id in a.requests && !(id == o.req.id) ==> a.requests[id] == old(a.requests[id])
+//@ pure offerok_static(o *Offer) bool = o.req != nil && o.updates != nil && o.updates != o.a.users && o.req.id in o.updates && (forall id string :: id in o.updates ==> o.updates[id] != 0)
